@@ -34,6 +34,8 @@ func init() {
 			{ID: "C15-R11", Title: "Compare/Equals/HashKey push no operand through a lossy conversion", Floor: 20, Run: lossyConversionsInComparisons},
 			{ID: "C15-R12", Title: "times are compared as instants (Equal/Before/After), never with ==", Floor: 1, Run: timesComparedAsInstants},
 			{ID: "C15-R13", Title: "Equals and HashKey look at the same thing", Floor: 1, Run: equalsAndHashKeyLookAtTheSameThing},
+			{ID: "C15-R14", Title: "pair walks remember pairs", Floor: 2, Run: pairWalksRememberPairs},
+			{ID: "C15-R15", Title: "literals build their own kind", Floor: 3, Run: literalsBuildTheirOwnKind},
 		},
 	})
 }
